@@ -1,12 +1,26 @@
 import TddaVerif.Drv.Util
 import TddaVerif.Model.Csvw
 import TddaVerif.Generated.Csvw
+import TddaVerif.Model.CsvwDialect
 open Lean TddaVerif.Drv TddaVerif.Csvw
 
 namespace TddaVerif.Drv.C16
 
+def asJV (j : Json) : R TddaVerif.CsvwDialect.JV :=
+  match j with
+  | Json.str "\u0000absent" => pure .absent
+  | Json.null => pure .null
+  | Json.bool b => pure (.bool b)
+  | Json.num n => if n.exponent == 0 && n.mantissa ≥ 0 then pure (.num n.mantissa.toNat) else pure .other
+  | _ => pure .other
+
 def handle (op : String) (j : Json) : Option (R Json) :=
   match op with
+  | "c16.dialect" => some do
+      let h ← asJV (← fld j "header")
+      let c ← asJV (← fld j "count")
+      let names ← asList asChars (← fld j "names")
+      pure (ofOpt (ofList ofChars) (TddaVerif.CsvwDialect.headerKw h c names))
   | "c16.date_format" => some do
       let fmt ← asChars (← fld j "fmt")
       let ext ← asBool (← fld j "ext")
